@@ -312,3 +312,22 @@ func (r *Run) Finish(t *testing.T) {
 		t.Fail()
 	}
 }
+
+// TempDir makes a scratch directory on tmpfs (fsync is free there, so tens of
+// thousands of real database saves fit in a quick run), removed when the test ends.
+func TempDir(t testing.TB) string {
+	base := os.Getenv("VERIF_TMP")
+	if base == "" {
+		if st, err := os.Stat("/dev/shm"); err == nil && st.IsDir() {
+			base = "/dev/shm"
+		} else {
+			base = os.TempDir()
+		}
+	}
+	d, err := os.MkdirTemp(base, "verif-")
+	if err != nil {
+		t.Fatalf("tempdir: %v", err)
+	}
+	t.Cleanup(func() { os.RemoveAll(d) })
+	return d
+}
